@@ -100,6 +100,8 @@ def run(tier: str, seed: int) -> int:
             else:
                 if "ok" in ms and "ok" in md:
                     res.mismatches.append({"op": "update", "case": case, "impl": impl, "model": "accepted"})
+                    if in_domain:
+                        res.spec_failures.append({"case": case, "what": "image update refused arguments inside the 32-bit address space (record, cache table and envelope all fit): " + impl["err"]})
     drv.close()
     return finish(res, st, RULE, NOTE)
 
